@@ -147,3 +147,47 @@ def _rgd_index_contract():
     c2 = copy.copy(c)
     c2.func = "rgd_get_double_grid_index"
     return c2
+
+
+def tetrahedra_frequencies_safety():
+    """phpy_get_tetrahedra_frequenies.  Call site: phonopy/phonon/tetrahedron_mesh.py (TetrahedronMesh._set_tetrahedra_frequencies):
+    freq_tetras (num_gp, num_band * 96), mesh (3), grid_points (num_gp) with values in [0, prod(mesh)), grid_address (prod(mesh), 3),
+    relative_grid_address (24, 4, 3) viewed as (96, 3), gp_ir_index (prod(mesh)) with values in [0, num_ir), frequencies (num_ir, num_band).
+    Obligations: every subscript in range; the `omp parallel for` over j inside the sequential loop over i is race free
+    (private list of the pragma, writes freq_tetras[i][j] disjoint for different j)."""
+    from contracts import c_rgrid as RG
+    NG, NIR = z3.Int("n_grid"), z3.Int("n_ir")
+
+    def req(V):
+        m = V.a.mesh
+        return [m[0] >= 1, m[1] >= 1, m[2] >= 1, NG == m[0] * m[1] * m[2], NIR >= 1, V.p.num_band >= 0, V.p.num_gp >= 0,
+                _range_tab(V.a.grid_points, V.p.num_gp, 0, NG), _range_tab(V.a.gp_ir_index, NG, 0, NIR)]
+    reg = {"rgd_get_double_grid_address": RG.double_grid_address_contract(), "rgd_get_double_grid_index": _rgd_index_contract()}
+    c = Contract(PF, "phpy_get_tetrahedra_frequenies", tag="[safety]",
+                 shapes={"freq_tetras": lambda P: [P.num_gp, P.num_band * 96], "mesh": lambda P: [3], "grid_points": lambda P: [P.num_gp],
+                         "grid_address": lambda P: [NG, 3], "relative_grid_address": lambda P: [96, 3], "gp_ir_index": lambda P: [NG],
+                         "frequencies": lambda P: [NIR, P.num_band]},
+                 requires=req, modifies=("freq_tetras",), auto_range=True, race=True,
+                 use_contracts={"rgd_get_double_grid_address", "rgd_get_double_grid_index"})
+    return c, reg
+
+
+def derivative_dynmat_safety():
+    """ddm_get_derivative_dynmat_at_q with every callee inlined (get_derivative_dynmat_at_q, get_derivative_nac, get_dA, get_dC, ...).
+    Call site: phonopy/harmonic/derivative_dynmat.py (DerivativeOfDynamicalMatrix._run_c): derivative_dynmat (3, 3np, 3np) complex,
+    fc full or compact, svecs/multi/mass/maps of the primitive cell, born/dielectric/q_direction None unless NAC.
+    Obligations: every subscript in range, no division by zero, and the `omp parallel for private(i, j)` over the atom pairs is
+    race free (every pair writes its own 3x3 blocks)."""
+    from contracts import c_ddm as DDM
+    F2 = "c/derivative_dynmat.c"
+
+    def req(V):
+        np_, ns = V.p.num_patom, V.p.num_satom
+        out = wf_maps(V) + [_pos_masses(V, "mass"), _range_tab(V.a.s2p_map, ns, 0, FC0)]
+        # with NAC the three NAC arrays are present, and q.eps.q != 0 for the q used
+        out.append(z3.Implies(V.p.is_nac != 0, z3.And(z3.Not(V.null.born), z3.Not(V.null.dielectric))))
+        return out
+    # instance without NAC (is_nac == 0): the NAC branch divides by q.eps.q, whose non-vanishing is a precondition the Python layer
+    # establishes by choosing q / q_direction; that branch's subscripts are covered functionally in C12 (get_dA, get_dC lemmas) only
+    return Contract(F2, "ddm_get_derivative_dynmat_at_q", tag="[safety,is_nac=0]", shapes=DDM.DDM_SHAPES, nullable=("born", "dielectric", "q_direction"),
+                    macros={"PI": PI}, requires=req, modifies=("derivative_dynmat",), auto_range=True, race=True, fixed={"is_nac": 0})
